@@ -17,16 +17,25 @@ compares them with its own reading computed from the regenerated list by a plain
 namespace Ural.Lru
 open Ural Ural.Py
 
-/-- suffix_trie.py:60-121 (`__walk` after the `None` / special-host tests, then `split`): the
-labels of the lower-cased hostname without trailing dots, the walk, the cut -/
-def pslSplitT (t : SNode Str) (hn : Str) : Option (Str × Str) :=
+/-- suffix_trie.py:100-121: what `__walk` returns for the suffix length found, then `split` -/
+def splitOfLen (hn : Str) (len : Option Nat) : Option (Str × Str) :=
   let parts := SuffixTrie.hostParts hn
   SuffixTrie.splitOf
-    (match SNode.walkLen SuffixTrie.starStr t parts.reverse with
+    (match len with
      | none => none
      | some n =>
        let l := parts.length
        some (parts, if l = n then -1 else max 1 ((l : Int) - (n : Int))))
+
+/-- suffix_trie.py:60-99: the suffix length the walk finds for a hostname (labels of the
+lower-cased hostname without trailing dots, right to left) -/
+def hostLenT (t : SNode Str) (hn : Str) : Option Nat :=
+  SNode.walkLen SuffixTrie.starStr t (SuffixTrie.hostParts hn).reverse
+
+/-- suffix_trie.py:60-121 (`__walk` after the `None` / special-host tests, then `split`): the
+labels of the lower-cased hostname without trailing dots, the walk, the cut -/
+def pslSplitT (t : SNode Str) (hn : Str) : Option (Str × Str) :=
+  splitOfLen hn (hostLenT t hn)
 
 /-- `split_suffix` of `ural/tld.py` as far as stems.py reaches it, on the trie built by
 `refresh()` from the lines of the suffix list -/
@@ -41,16 +50,19 @@ def dnsName (h : Str) : Bool :=
   noneOf [':', '[', ']', '%'] h && h.head? != some '.' && h.getLast? != some '.'
 
 /-- number of labels of the public suffix of the host of a netloc, read off the trie -/
-def suffixLenT (t : SNode Str) (n : Str) : Option Nat :=
-  SNode.walkLen SuffixTrie.starStr t (SuffixTrie.hostParts (pyHostname n)).reverse
+def suffixLenT (t : SNode Str) (n : Str) : Option Nat := hostLenT t (pyHostname n)
+
+/-- `outsideSuffixT` on the suffix length of `v`'s host -/
+def outsideSuffixOf (lenv : Option Nat) (nu nv : Str) : Bool :=
+  !isSpecialHost (pyHostname nu) && !isSpecialHost (pyHostname nv) &&
+    (match lenv with
+     | none => true
+     | some m => decide (m < (SuffixTrie.hostParts (pyHostname nu)).length))
 
 /-- **`u`'s host lies outside the public suffix of `v`'s host**: `v`'s public suffix (if it has
 one) has fewer labels than `u`'s host has; neither host is a special host -/
 def outsideSuffixT (t : SNode Str) (nu nv : Str) : Bool :=
-  !isSpecialHost (pyHostname nu) && !isSpecialHost (pyHostname nv) &&
-    (match suffixLenT t nv with
-     | none => true
-     | some m => decide (m < (SuffixTrie.hostParts (pyHostname nu)).length))
+  outsideSuffixOf (suffixLenT t nv) nu nv
 
 /-- `SameSuffixSplit`, executable -/
 def sameSuffixSplitB (sp : Str → Option (Str × Str)) (nu nv : Str) : Bool :=
